@@ -132,6 +132,7 @@ def gen_cases(ctx):
         for pos in range(n + 1):
             placements.append(('name', pos))
         placements.append(('positional', 0))
+        placements.append(('positional-po', 0))     # the context parameter itself is positional-only: def f(ctx, /, ...)
         placements.append(('view', None))
         for mode, pos in placements:
             yield dict(sig=sig, mode=mode, pos=pos)
@@ -142,9 +143,9 @@ def build_params(sig, mode, pos):
     params = [(NAMES[i], k, d) for i, (k, d) in enumerate(sig)]
     if mode in ('none', 'view'):
         return params, params
-    if mode == 'positional':
+    if mode in ('positional', 'positional-po'):
         # context is the first positional parameter
-        kind = PO if (params and params[0][1] == PO) else PK
+        kind = PO if (mode == 'positional-po' or (params and params[0][1] == PO)) else PK
         full = [('ctx', kind, False)] + params
         # a parameter without default may not follow one with default: ctx has none and comes first - always fine
         return full, params
@@ -185,17 +186,20 @@ def run_case(case, rec):
     twin_log = []
     twin, twin_src = make_fn(twin_params, twin_log, name='twin')
     names = [p[0] for p in twin_params]
-    names_all = names + ['zz'] + (['ctx'] if mode in ('name', 'positional') else ['context'])
+    names_all = names + ['zz'] + (['ctx'] if mode in ('name', 'positional', 'positional-po') else ['context'])
     flavours = []
     if mode == 'view':
-        flavours = [('sync', 'view'), ('async', 'view')]
+        # 'view-ctxname': the view is registered with a context NAME that coincides with a parameter of the method
+        # 'view-merged' / 'function-merged': registered on a MethodRegistry that is then merged into the dispatcher
+        flavours = [('sync', 'view'), ('async', 'view'), ('sync', 'view-ctxname'), ('sync', 'view-merged')]
     else:
-        flavours = [('sync', 'function'), ('async', 'function'), ('async', 'coroutine')]
+        flavours = [('sync', 'function'), ('async', 'function'), ('async', 'coroutine'), ('sync', 'function-merged')]
     obs = []
     for disp, flavour in flavours:
         log = []
         d = pjrpc.server.AsyncDispatcher() if disp == 'async' else pjrpc.server.Dispatcher()
-        if flavour == 'view':
+        target = pjrpc.server.MethodRegistry() if flavour.endswith('-merged') else d.registry
+        if flavour.startswith('view'):
             meth, src = make_fn(full, log, is_method=True, name='f')
 
             class V(pjrpc.server.ViewMixin):
@@ -203,15 +207,17 @@ def run_case(case, rec):
                     super().__init__()
                     self.context = context
             V.f = meth
-            d.registry.view(V, context='context')
+            target.view(V, context=(names[0] if (flavour == 'view-ctxname' and names) else 'context'))
         else:
             fn, src = make_fn(full, log, is_async=(flavour == 'coroutine'), name='f')
             if mode == 'none':
-                d.add(fn, name='f')
+                target.add(fn, name='f')
             elif mode == 'name':
-                d.add(fn, name='f', context='ctx')
+                target.add(fn, name='f', context='ctx')
             else:
-                d.add(fn, name='f', context='ctx', positional=True)
+                target.add(fn, name='f', context='ctx', positional=True)
+        if target is not d.registry:
+            d.add_methods(target)
         for ctxobj, inp in ((c_, i_) for c_ in ((CTX, FALSY) if mode != 'none' else (CTX,)) for i_ in inputs(names_all)):
             # ---- the oracle: python binds the twin
             del twin_log[:]
@@ -257,7 +263,7 @@ def run_case(case, rec):
                 else:
                     loc, self_ = log[0]
                     loc = dict(loc)
-                    ctxv = loc.pop('ctx', None) if mode in ('name', 'positional') else (self_.context if self_ is not None else None)
+                    ctxv = loc.pop('ctx', None) if mode in ('name', 'positional', 'positional-po') else (self_.context if self_ is not None else None)
                     if mode != 'none' and ctxv is not ctxobj:
                         problem = 'context parameter did not receive the server-side context%s' % (' (falsy context object)' if ctxobj is FALSY else '')
                     elif norm(loc) != want[1]:
@@ -295,11 +301,15 @@ def double_registration(sig, mode, full, twin_params, sp, rec):
         else:
             d.add(fn, name='f', context='ctx', positional=True)
         d.add(fn, name='g')
+        # a DIFFERENT function whose signature equals f's once the context parameter is removed
+        sib_log = []
+        sib, _ = make_fn(twin_params, sib_log, name='sib')
+        d.add(sib, name='sib')
         tl_f, tl_g = [], []
         twin_f, _ = make_fn(twin_params, tl_f, name='twin')
         twin_g, _ = make_fn(full, tl_g, name='twin')
-        for target in ((first,) + ('f', 'g', 'f')):
-            twin, tl = (twin_f, tl_f) if target == 'f' else (twin_g, tl_g)
+        for target in ((first,) + ('f', 'sib', 'g', 'sib', 'f')):
+            twin, tl = (twin_f, tl_f) if target in ('f', 'sib') else (twin_g, tl_g)
             for inp in inputs(names_f):
                 if isinstance(inp, dict) and len(inp) > 3:
                     continue
@@ -310,9 +320,12 @@ def double_registration(sig, mode, full, twin_params, sp, rec):
                 except TypeError:
                     want = ('refuse', None)
                 del log[:]
+                del sib_log[:]
                 text = json.dumps({'jsonrpc': '2.0', 'id': 1, 'method': target, 'params': inp})
                 try:
                     resp = json.loads(d.dispatch(text, context=CTX)[0])
+                    if target == 'sib':
+                        log.extend(sib_log)
                 except Exception as e:   # noqa
                     resp = {'raised': '%s: %s' % (type(e).__name__, e)}
                 rec.transitions += 1
@@ -333,6 +346,8 @@ def double_registration(sig, mode, full, twin_params, sp, rec):
                         if target == 'f':
                             if loc.pop('ctx', None) is not CTX:
                                 problem = 'context parameter did not receive the server-side context'
+                        if target == 'sib' and 'ctx' in loc:
+                            problem = 'a method without context parameter received a context'
                         if problem is None and norm(loc) != want[1]:
                             problem = 'method saw other arguments than a direct call binds'
                 if problem:
